@@ -296,6 +296,8 @@ prop('C14',
          dict(name='enum', engine='E5', pkg='iters', test='TestC14Enum', kind='plain', quick=dict(shards=4), thorough=dict(shards=8)),
          dict(name='rapid', engine='E5', pkg='iters', test='TestC14',
               quick=dict(cases=150000, shards=4), thorough=dict(cases=4500000, shards=16, timeout=2400)),
+         dict(name='fuzz', engine='coverage-guided sweep', kind='fuzz', pkg='iters', test='FuzzC14',
+              thorough=dict(execs=3000000, timeout=2400)),
      ],
      manifest=dict(
          engine='E5', design_ref='4/C14',
@@ -317,6 +319,8 @@ prop('C15',
          dict(name='enum', engine='E5', pkg='iters', test='TestC15Enum', kind='plain', quick=dict(shards=4), thorough=dict(shards=8)),
          dict(name='rapid', engine='E5', pkg='iters', test='TestC15',
               quick=dict(cases=150000, shards=4), thorough=dict(cases=4500000, shards=16, timeout=2400)),
+         dict(name='fuzz', engine='coverage-guided sweep', kind='fuzz', pkg='iters', test='FuzzC15',
+              thorough=dict(execs=3000000, timeout=2400)),
      ],
      manifest=dict(
          engine='E5', design_ref='4/C15',
@@ -340,6 +344,8 @@ prop('C16',
          dict(name='enum', engine='E5', pkg='ducts', test='TestC16Enum', kind='plain', quick=dict(shards=4), thorough=dict(shards=16, timeout=2400)),
          dict(name='rapid', engine='E5', pkg='ducts', test='TestC16',
               quick=dict(cases=20000, shards=4), thorough=dict(cases=600000, shards=16, timeout=2400)),
+         dict(name='fuzz', engine='coverage-guided sweep', kind='fuzz', pkg='ducts', test='FuzzC16',
+              thorough=dict(execs=3000000, timeout=2400)),
      ],
      manifest=dict(
          engine='E5', design_ref='4/C16',
@@ -410,6 +416,8 @@ prop('C19',
          dict(name='enum', engine='E6', pkg='c19', test='TestC19Enum', kind='plain', quick=dict(shards=1), thorough=dict(shards=1, timeout=1800)),
          dict(name='rapid', engine='E6', pkg='c19', test='TestC19',
               quick=dict(cases=80000, shards=1), thorough=dict(cases=1600000, shards=16, timeout=1800)),
+         dict(name='fuzz', engine='coverage-guided sweep', kind='fuzz', pkg='c19', test='FuzzC19',
+              thorough=dict(execs=3000000, timeout=2400)),
      ],
      manifest=dict(
          engine='E6', design_ref='4/C19',
@@ -432,6 +440,8 @@ prop('C20',
               quick=dict(shards=1), thorough=dict(shards=1)),
          dict(name='rapid', engine='E7', pkg='c20', test='TestC20',
               quick=dict(cases=80000, shards=1), thorough=dict(cases=4000000, shards=16, timeout=1800)),
+         dict(name='fuzz', engine='coverage-guided sweep', kind='fuzz', pkg='c20', test='FuzzC20',
+              thorough=dict(execs=3000000, timeout=2400)),
      ],
      manifest=dict(
          engine='E7', design_ref='4/C20',
